@@ -2,20 +2,32 @@ use crate::Prop;
 pub mod c01;
 pub mod c02;
 pub mod c03;
+pub mod c04;
 pub mod c06;
 pub mod c08;
+pub mod c11;
+pub mod c12;
 pub mod c13;
+pub mod c14;
 pub mod c15;
+pub mod c16;
+pub mod c17;
 
 pub fn lookup(id: &str) -> Option<&'static dyn Prop> {
     match id {
         "C01" => Some(&c01::C01),
         "C02" => Some(&c02::C02),
         "C03" => Some(&c03::C03),
+        "C04" => Some(&c04::C04),
         "C06" => Some(&c06::C06),
         "C08" => Some(&c08::C08),
+        "C11" => Some(&c11::C11),
+        "C12" => Some(&c12::C12),
         "C13" => Some(&c13::C13),
+        "C14" => Some(&c14::C14),
         "C15" => Some(&c15::C15),
+        "C16" => Some(&c16::C16),
+        "C17" => Some(&c17::C17),
         _ => None,
     }
 }
